@@ -31,7 +31,7 @@ def shards(tier):
 
 
 def required_classes(tier):
-    return ["cand:" + c for c in CLASSES] + ["cand:related-message", "soak:valid-public-keys", "suite:custom", "suite:basic", "suite:aug", "suite:pop", "reach:pairing-nonaccept", "reach:subgroup-reject", "reach:decode-reject"]
+    return ["cand:" + c for c in CLASSES] + ["cand:canonical:coordinate-band", "cand:related-message", "soak:valid-public-keys", "suite:custom", "suite:basic", "suite:aug", "suite:pop", "reach:pairing-nonaccept", "reach:subgroup-reject", "reach:decode-reject"]
 
 
 def run(rec):
@@ -48,6 +48,9 @@ def run(rec):
         soak_keys(rec, cs, suites, rng)
     else:
         rec.case("soak:valid-public-keys", None, nontrivial=False)
+    if rec.shard % 4 == 2 or not quick:
+        coordinate_band_cases(rec, suites, rng, 3 if quick else 12)
+    rec.case("cand:canonical:coordinate-band", None, nontrivial=False)
     custom = bmon.custom_suites(cs)
     ckeys = list(custom)
     nbases = 3 if quick else 36
@@ -179,6 +182,60 @@ def run(rec):
         # 10. wrong lengths (not 96 bytes)
         for cand in (canon[:95], canon + b"\x00", b"\x00" + canon, b"", canon[:48]):
             offer("length", cand)
+
+
+def coordinate_band_cases(rec, suites, rng, n_each):
+    """Honest (key, message, signature) triples in which an ENCODED COORDINATE lies at the edge of the field: the x of the public
+    key, or the real or imaginary part of the signature's x, has the same leading octet as the field modulus (0x1a: the band
+    [0x1a * 2^376, q), one value in 6 200) or a zero leading octet.  Such triples cannot be chosen, only found: walk sk -> sk + 1
+    (the key moves by G1, the signature by H(m)) in the model until the coordinate falls into the band."""
+    q = params.BLS_P
+    E1m, G1m = params.BLS_E1, params.bls_generators()[0]
+
+    def band(v, which):
+        return (v >> 376) == (q >> 376) if which == "top" else (v >> 376) == 0
+    names = list(suites)
+    found = 0
+    for j in range(n_each):
+        which = "top" if j % 3 != 2 else "zero"
+        # (a) public key
+        suite = names[(j + rec.shard) % 3]
+        sk = rng.randrange(1, R // 2)
+        Pt = E1m.mul(G1m, sk)
+        for _ in range(60000):
+            if band(Pt[0][0], which):
+                break
+            sk += 1
+            Pt = E1m.add(Pt, G1m)
+        else:
+            continue
+        pk = bmon.register_key(sk)
+        m = rng.randbytes(rng.choice([0, 32, 65]))
+        rec.case("cand:canonical:coordinate-band", ("band", "pk", suite, sk, m), sample={"suite": suite, "candidate": "canonical signature", "what": "leading octet of the key's x is %s" % ("that of the modulus" if which == "top" else "0x00")})
+        call(suites[suite].Verify, pk, m, bmon.m_sign(suite, sk, m))
+        found += 1
+        # (b) signature (suites whose message point does not depend on the key)
+        suite = ("basic", "pop")[(j + rec.shard) % 2]
+        m = rng.randbytes(rng.choice([1, 32, 70]))
+        Hm = bmon.m_sign_point(suite, 1, m)
+        sk = rng.randrange(1, R // 2)
+        St = E2.mul(Hm, sk)
+        part = j % 2
+        for _ in range(60000):
+            if band(St[0][part], which):
+                break
+            sk += 1
+            St = E2.add(St, Hm)
+        else:
+            continue
+        pk = bmon.register_key(sk)
+        sig = Z.enc_g2(St)
+        rec.case("cand:canonical:coordinate-band", ("band", "sig", suite, sk, m), sample={"suite": suite, "candidate": "canonical signature", "what": "leading octet of the %s part of the signature's x is %s" % (("real", "imaginary")[part], "that of the modulus" if which == "top" else "0x00")})
+        call(suites[suite].Verify, pk, m, sig)
+        if suite == "pop":
+            call(suites[suite].FastAggregateVerify, [pk], m, sig)
+        found += 1
+    rec.event("coordinate-band:triples-found", found)
 
 
 def soak_keys(rec, cs, suites, rng):
